@@ -12,7 +12,7 @@ def s_counter(g, depth):
     L = ["fn %s(start) {" % mk, "    var n = start;", "    fn inc() { n = n + %s; return n; }" % step,
          "    fn get() { return n; }", "    return [inc, get, |x| { n = x; return n; }];", "}",
          "var %s = %s(%s);" % (c1, mk, r.choice(["0", "5"])), "var %s = %s(100);" % (c2, mk)]
-    g.declare(mk, "fn:1", const=True)
+    g.declare(mk, "clfn:1", const=True)     # returns closures: never used where a number is expected
     g.declare(c1, "cl", const=True)
     g.declare(c2, "cl", const=True)
     for _ in range(r.range(2, 6)):
@@ -96,7 +96,7 @@ def s_levels(g, depth):
     L.append("    s.push(q);")
     L.append("    return deep;")
     L.append("}")
-    g.declare(f, "fn:1", const=True)
+    g.declare(f, "clfn:1", const=True)
     call = "%s(%s)" % (f, r.choice(["1", "7"]))
     L.append("var d%s = %s;" % (f, call))
     unwrap = "d%s" % f
